@@ -233,6 +233,16 @@ def wait_accept():
     }}
 
 
+def two_waiters_one_step():
+    """two invocations of p (nw=2) wait at the same time, each under its own waiter id and with its own requirement
+    (the answer's k must be the input's k)."""
+    return {"timeout": None, "steps": {
+        "x": {"accepts": ["Start"], "nw": 1, "body": [{"op": "send", "ty": "A", "n": 2}, G, {"op": "none"}]},
+        "p": {"accepts": ["A"], "nw": 2, "returns": ["Stop"],
+              "body": [G, {"op": "wait", "ty": "Resp", "wid": "per_input", "timeout": None, "reqs": "input", "wev": False}, G, {"op": "none"}]},
+    }}
+
+
 def wait_and_acceptor():
     """p waits for a Resp while ANOTHER step q accepts Resp as its input: the response wakes p's wait AND is handed to q."""
     return {"timeout": None, "steps": {
@@ -499,6 +509,7 @@ def family(name, quick=True):
         # the result is the set that collect_events handed out (sorted): a buffer that loses or repeats an event shows
         out.append(("resumable_set(1,3)", resumable(1, 3, 2, 0, 0, result="collected"), []))
         out.append(("resumable_wait", resumable_wait(), [("Resp1", None), ("Resp", None)]))
+        out.append(("resumable_two_waiters", resumable_two_waiters(), [("Resp1", None), ("Resp", None)]))
         out.append(("resumable_handlers", resumable_handlers(), []))
         out.append(("resumable_shared_input", resumable_shared_input(), [("Resp1", None)]))
     elif name == "waits":
@@ -549,6 +560,18 @@ def resumable_wait():
         "a": {"accepts": ["Start"], "nw": 1,
               "body": [G, {"op": "wait", "ty": "Resp", "wid": "w1", "timeout": None, "reqs": {"k": 1}, "wev": True},
                        {"op": "store_set", "key": "uid"}, G, {"op": "stop", "result": "done"}]},
+    }}
+
+
+def resumable_two_waiters():
+    """two invocations of b wait at the same time, each under its own waiter id for the answer with ITS k; the store records
+    which answer each got."""
+    return {"timeout": None, "steps": {
+        "a": {"accepts": ["Start"], "nw": 1, "body": [G, {"op": "send", "ty": "A", "n": 2}, {"op": "none"}]},
+        "b": {"accepts": ["A"], "nw": 2,
+              "body": [G, {"op": "wait", "ty": "Resp", "wid": "per_input", "timeout": None, "reqs": "input", "wev": False},
+                       {"op": "store_set", "key": "uid", "val": "wait"}, {"op": "ret", "ty": "B"}]},
+        "c": {"accepts": ["B"], "nw": 1, "body": [G, {"op": "collect", "expected": ["B", "B"]}, {"op": "stop", "result": "done"}]},
     }}
 
 
